@@ -1,6 +1,11 @@
 (* KvC17.v - the row-level checker chk_row_C17 accepts every step of the model *)
 From Rosmar Require Import Base Json Crc Kv Store Trace KvTac.
 
+Lemma revid_ok_row r0 : revid_ok (view_of_row r0) = true.
+Proof. unfold revid_ok, view_of_row; cbn [v_revx v_docx v_rev v_body]. rewrite !ostr_eqb_refl. reflexivity. Qed.
+
 Theorem C17_row_sound : rc_sound chk_row_C17.
-Proof. start_rc. all: unfold chk_row_C17; fin. Qed.
+Proof. start_rc. all: unfold chk_row_C17; fin. all: try apply revid_ok_row.
+  all: try (unfold new_row; match goal with |- revid_ok ?v = true => change v with (view_of_row (mkRow (v_body v) (v_json v) (v_cas v) (v_exp v) XNull (v_del v) (v_rev v))) end; apply revid_ok_row).
+Qed.
 
